@@ -167,7 +167,7 @@ func (e *env) open(name string, base uint32, reqTimeout time.Duration, server bo
 func (e *env) finish(s *scen, evs []h.SendEv, expectSigs ...string) {
 	r := e.r
 	wire, answered := s.p.snapshot()
-	labels, burned, _ := h.SeqLabels(evs, s.sc.VerifReqLocker())
+	labels, burned, truncated, _ := h.SeqLabelsT(evs, s.sc.VerifReqLocker())
 	multi := 0
 	for _, c := range wire {
 		if c.ChunkType == 'C' {
@@ -184,7 +184,7 @@ func (e *env) finish(s *scen, evs []h.SendEv, expectSigs ...string) {
 	}
 
 	// ---- oracle on the implementation alone
-	v := h.CheckWire(wire, burned, answered, initTok)
+	v := h.CheckWireT(wire, burned, truncated, answered, initTok)
 	switch {
 	case v.OK:
 		r.Hit("wire:consecutive")
@@ -263,7 +263,11 @@ func (e *env) finish(s *scen, evs []h.SendEv, expectSigs ...string) {
 		}
 	}
 	linked := e.d.Ask("linked")
-	if (linked == "true") != v.OK {
+	if len(truncated) > 0 {
+		// a message abandoned after its first chunk: the model's `Linked` counts the unfinished message as an
+		// offence, the property (numbers, no interleaving) does not
+		e.r.Hit("message-abandoned-mid-way")
+	} else if (linked == "true") != v.OK {
 		r.Disagree(s.name+" linked", linked, fmt.Sprint(v.OK))
 	}
 	if inGuard {
@@ -553,6 +557,43 @@ func (e *env) forcedAbort() {
 	e.finish(s, evs, "C11.aborted-send-burns-number")
 }
 
+// forcedAbortMid: the context of a three-chunk request ends after its second chunk: the message stays
+// unfinished, the numbers drawn so far are all on the wire and the next message continues them.
+func (e *env) forcedAbortMid() {
+	s := e.open("forced-abort-mid-message", 700, 20*time.Second, false, nil)
+	if s == nil {
+		return
+	}
+	defer s.stop()
+	s.sc.SendRequestWithTimeout(context.Background(), small(1), nil, 20*time.Second, nil)
+	hold := s.ctl.BlockAt(func(ev *h.SendEv) bool { return ev.Name == "send.chunk" && ev.Int(2) == 1 })
+	ctx, cancel := context.WithCancel(context.Background())
+	defer cancel()
+	done := make(chan error, 1)
+	go func() { done <- s.sc.SendRequestWithTimeout(ctx, bigReq(3, 2), nil, 20*time.Second, nil) }()
+	if hold.WaitReached(20*time.Second) == nil {
+		e.r.InfraError = s.name + ": sender did not reach its second chunk"
+		return
+	}
+	cancel()
+	hold.Release()
+	select {
+	case err := <-done:
+		if err == nil {
+			e.r.Notes = append(e.r.Notes, s.name+": the request was sent completely although its context ended")
+		}
+	case <-time.After(20 * time.Second):
+		e.r.InfraError = s.name + ": sender did not return"
+		return
+	}
+	s.sc.SendRequestWithTimeout(context.Background(), small(3), nil, 20*time.Second, nil)
+	s.p.waitWire(4, 20*time.Second)
+	evs := s.ctl.Events()
+	uasc.VerifSetHook(nil)
+	e.r.Hit("scenario:forced-abort-mid-message")
+	e.finish(s, evs)
+}
+
 func (e *env) corpus() {
 	// model-only traces: `trace <base> <tok>|<label>;…|<expected wire>|<expected linked>`
 	for _, line := range e.o.CorpusLines() {
@@ -608,6 +649,8 @@ func main() {
 			e.forcedStale()
 		case strings.HasPrefix(o.Replay, "forced-failed"):
 			e.forcedFailedRenewal()
+		case strings.HasPrefix(o.Replay, "forced-abort-mid"):
+			e.forcedAbortMid()
 		case strings.HasPrefix(o.Replay, "forced-aborted"):
 			e.forcedAbort()
 		default:
@@ -627,6 +670,9 @@ func main() {
 	if r.InfraError == "" {
 		e.forcedAbort()
 	}
+	if r.InfraError == "" {
+		e.forcedAbortMid()
+	}
 	t0 := time.Now()
 	n := o.N(120, 3000)
 	for i := 0; i < n && r.InfraError == ""; i++ {
@@ -642,7 +688,7 @@ func main() {
 	}
 	for _, b := range []string{"label:spawn", "label:gate", "label:getActive", "label:pendAdd", "label:respGetActive", "label:lockInst", "label:newMsg", "label:write",
 		"label:abort", "label:unlockInst", "label:pendDone", "label:rLock", "label:rWaitBegin", "label:rWaitDone", "label:rLockOld", "label:rCopy", "label:rSendOPN",
-		"label:rInstall", "label:rFail", "label:rUnlockOld", "label:rUnlock", "guard:inside", "guard:outside", "multi-chunk-message", "counter-near-wrap"} {
+		"label:rInstall", "label:rFail", "label:rUnlockOld", "label:rUnlock", "guard:inside", "guard:outside", "multi-chunk-message", "counter-near-wrap", "message-abandoned-mid-way", "precancelled-send-draws-no-number"} {
 		if r.Distribution[b] == 0 {
 			r.Unreached = append(r.Unreached, b)
 		}
